@@ -63,3 +63,42 @@ def mode_scores(B, k, n, name="S", complex_=False, sample="time", scoords=None):
     """arbitrary symbolic score array (mode, sample)"""
     S = B.array((n, k), name, complex_)
     return xr.DataArray(S, dims=(sample, "mode"), coords={sample: list(range(n)) if scoords is None else scoords, "mode": list(range(1, k + 1))}, name="scores")
+
+
+# ---------------------------------------------------------------------------------------
+# independent oracles (written directly on the raw input arrays; work for SymArray and float ndarray)
+
+
+def oracle_matrix(X, sample_dim="time", center=True, standardize=False, use_coslat=False, weights=None, B=None):
+    """(n, p) matrix the model is documented to decompose: ((X - mean)/std) * sqrt(cos(lat)) * w, features flattened in the
+    order of X's non-sample dims; returns (matrix, list of feature labels)"""
+    fd = [d for d in X.dims if d != sample_dim]
+    Xt = X.transpose(sample_dim, *fd)
+    n = Xt.sizes[sample_dim]
+    A = Xt.data.reshape((n, -1))
+    if center:
+        A = A - A.mean(axis=0)
+    if standardize:
+        sd = A.std(axis=0)
+        if B is not None:
+            B.assume_gt(sd, float(np.finfo(np.float32).eps), "every feature's standard deviation exceeds the 1.2e-7 floor at which standardisation clips")
+        A = A / sd
+    p = A.shape[1]
+    f = np.ones(p)
+    if use_coslat:
+        lat = X["lat"].values
+        w = np.sqrt(np.clip(np.cos(np.deg2rad(lat)), 0, 1))
+        wl = xr.DataArray(w, dims=("lat",), coords={"lat": X["lat"]})
+        ones = xr.DataArray(np.ones([X.sizes[d] for d in fd]), dims=fd, coords={d: X[d] for d in fd})
+        f = (ones * wl).transpose(*fd).values.reshape(-1)
+        A = A * f
+    if weights is not None:
+        ones = xr.DataArray(np.ones([X.sizes[d] for d in fd]), dims=fd, coords={d: X[d] for d in fd})
+        wv = (ones * weights).transpose(*fd).data.reshape(-1)
+        A = A * wv
+    labels = list(itertools.product(*[list(X[d].values) for d in fd]))
+    return A, labels
+
+
+def ctranspose(A):
+    return np.conjugate(A).T
